@@ -90,11 +90,11 @@ func (e *fnEnc) loadValue(st *state, addr string, t types.Type) string {
 		if n, ok := isByteArrayBV(t); ok {
 			h := e.heap(st, "bv8", sortBV8)
 			if n == 1 {
-				return fmt.Sprintf("(select %s %s)", h, idxAddr(addr, bvLit(64, 0)))
+				return e.selectFwd(h, idxAddr(addr, bvLit(64, 0)))
 			}
 			var bs []string
 			for i := 0; i < n; i++ {
-				bs = append(bs, fmt.Sprintf("(select %s %s)", h, idxAddr(addr, bvLit(64, uint64(i)))))
+				bs = append(bs, e.selectFwd(h, idxAddr(addr, bvLit(64, uint64(i)))))
 			}
 			return "(concat " + strings.Join(bs, " ") + ")"
 		}
@@ -115,7 +115,120 @@ func (e *fnEnc) loadValue(st *state, addr string, t types.Type) string {
 	if key == "" {
 		e.unsupported("load of type %s", t)
 	}
-	return fmt.Sprintf("(select %s %s)", e.heap(st, key, s), addr)
+	return e.selectFwd(e.heap(st, key, s), addr)
+}
+
+type storeRec struct{ prev, addr, val string }
+
+// selectFwd reads a cell, resolving read-over-write syntactically where the written and
+// the read address are identical or provably distinct (a sound simplification of
+// select/store terms that keeps the queries small).
+func (e *fnEnc) selectFwd(heapName, addr string) string {
+	addr = foldTerm(addr)
+	h := heapName
+	for depth := 0; depth < 400; depth++ {
+		si, ok := e.storeInfo[h]
+		if !ok {
+			break
+		}
+		if si.addr == addr {
+			return si.val
+		}
+		if !e.distinctAddrs(si.addr, addr) {
+			break
+		}
+		h = si.prev
+	}
+	return fmt.Sprintf("(select %s %s)", h, addr)
+}
+
+// distinctAddrs: syntactic proof that two addresses differ: same base with different
+// literal index / field number, or bases that are two different allocations of this function.
+func (e *fnEnc) distinctAddrs(a, b string) bool {
+	fa, err1 := parseSexps(a)
+	fb, err2 := parseSexps(b)
+	if err1 != nil || err2 != nil || len(fa) != 1 || len(fb) != 1 {
+		return false
+	}
+	return e.distinctSx(fa[0], fb[0])
+}
+
+// olderThanAlloc: `name` is a constant that was declared before the allocation `alloc`
+// was made: whatever it refers to existed then, so it is not (inside) the fresh object.
+func (e *fnEnc) olderThanAlloc(name, alloc string) bool {
+	ao, isAlloc := e.allocOrder[alloc]
+	do, declared := e.declOrder[name]
+	return isAlloc && declared && do < ao
+}
+
+func (e *fnEnc) distinctSx(a, b *sx) bool {
+	if a.list == nil && b.list == nil {
+		if a.atom == b.atom {
+			return false
+		}
+		if e.allocNames[a.atom] && e.allocNames[b.atom] {
+			return true
+		}
+		return e.olderThanAlloc(a.atom, b.atom) || e.olderThanAlloc(b.atom, a.atom)
+	}
+	ha, hb := a.head(), b.head()
+	if (ha == "idx" || ha == "fld") && ha == hb && len(a.list) == 3 && len(b.list) == 3 {
+		if a.list[1].String() == b.list[1].String() {
+			x, y := a.list[2], b.list[2]
+			if x.list == nil && y.list == nil && x.atom != y.atom && isLiteralAtom(x.atom) && isLiteralAtom(y.atom) {
+				return true
+			}
+			return false
+		}
+		return e.distinctSx(a.list[1], b.list[1])
+	}
+	if (ha == "idx" || ha == "fld") && b.list == nil && e.allocNames[b.atom] {
+		// an interior address of X versus the allocation Y itself or its interior
+		return e.rootAtomDiffers(a, b.atom)
+	}
+	if (hb == "idx" || hb == "fld") && a.list == nil && e.allocNames[a.atom] {
+		return e.rootAtomDiffers(b, a.atom)
+	}
+	if (ha == "idx" || ha == "fld") && (hb == "idx" || hb == "fld") && ha != hb {
+		if a.list[1].String() == b.list[1].String() {
+			return true // a field cell and an element cell of the same base
+		}
+	}
+	if (ha == "idx" || ha == "fld") && (hb == "idx" || hb == "fld") {
+		ra, rb := a, b
+		for ra.list != nil && (ra.head() == "idx" || ra.head() == "fld") {
+			ra = ra.list[1]
+		}
+		for rb.list != nil && (rb.head() == "idx" || rb.head() == "fld") {
+			rb = rb.list[1]
+		}
+		if ra.list == nil && rb.list == nil && ra.atom != rb.atom {
+			if e.allocNames[ra.atom] && e.allocNames[rb.atom] {
+				return true
+			}
+			return e.olderThanAlloc(ra.atom, rb.atom) || e.olderThanAlloc(rb.atom, ra.atom)
+		}
+	}
+	return false
+}
+
+func (e *fnEnc) rootAtomDiffers(a *sx, name string) bool {
+	for a.list != nil && (a.head() == "idx" || a.head() == "fld") {
+		a = a.list[1]
+	}
+	return a.list == nil && a.atom != name && (e.allocNames[a.atom] || e.olderThanAlloc(a.atom, name))
+}
+
+func isLiteralAtom(s string) bool {
+	if strings.HasPrefix(s, "#x") || strings.HasPrefix(s, "#b") {
+		return true
+	}
+	for _, c := range s {
+		if c < '0' || c > '9' {
+			return false
+		}
+	}
+	return s != ""
 }
 
 // storeValue writes val (of Go type t) to addr.
@@ -129,17 +242,14 @@ func (e *fnEnc) storeValue(st *state, addr string, t types.Type, val string) {
 		return
 	case *types.Array:
 		if n, ok := isByteArrayBV(t); ok {
-			h := e.heap(st, "bv8", sortBV8)
-			term := h
 			for i := 0; i < n; i++ {
 				hi := 8*(n-i) - 1
 				b := val
 				if n > 1 {
 					b = fmt.Sprintf("((_ extract %d %d) %s)", hi, hi-7, val)
 				}
-				term = fmt.Sprintf("(store %s %s %s)", term, idxAddr(addr, bvLit(64, uint64(i))), b)
+				e.storeCell(st, "bv8", sortBV8, idxAddr(addr, bvLit(64, uint64(i))), b)
 			}
-			e.setHeap(st, "bv8", sortBV8, term)
 			return
 		}
 		if u.Len() == 0 {
@@ -157,11 +267,23 @@ func (e *fnEnc) storeValue(st *state, addr string, t types.Type, val string) {
 	if key == "" {
 		e.unsupported("store of type %s", t)
 	}
-	e.setHeap(st, key, s, fmt.Sprintf("(store %s %s %s)", e.heap(st, key, s), addr, val))
+	e.storeCell(st, key, s, addr, val)
+}
+
+func (e *fnEnc) storeCell(st *state, key string, cell *Sort, addr, val string) {
+	addr = foldTerm(addr)
+	prev := e.heap(st, key, cell)
+	if len(val) > 60 {
+		val = e.define("sv", cell, val)
+	}
+	e.setHeap(st, key, cell, fmt.Sprintf("(store %s %s %s)", prev, addr, val))
+	e.storeInfo[st.heap[key]] = storeRec{prev: prev, addr: addr, val: val}
 }
 
 func (e *fnEnc) alloc(st *state, hint string) string {
 	r := e.define("obj_"+hint, sortRef, fmt.Sprintf("(obj %s)", st.next))
+	e.allocNames[r] = true
+	e.allocOrder[r] = e.ctr
 	st.next = e.define("next", &Sort{name: "Int"}, fmt.Sprintf("(+ %s 1)", st.next))
 	return r
 }
@@ -272,13 +394,12 @@ func (e *fnEnc) execInstr(b *ssa.BasicBlock, ins ssa.Instruction, st *state) {
 		sl := e.val(v.X)
 		n := v.Type().Underlying().(*types.Pointer).Elem().Underlying().(*types.Array).Len()
 		e.oblige(st, "conv-len", "", v.Pos(), app("bvuge", app("s_len", sl), bvLit(64, uint64(n))))
-		if n == 0 {
-			e.setVal(v, app("s_base", sl))
-		} else {
-			// the array object is the window of the backing store starting at off: model as a
-			// sub-array reference
-			e.setVal(v, e.subArrayRef(st, sl))
-		}
+		// The array is the window of the backing store that starts at the slice's offset.
+		// The pointer is tracked statically (element i lives at idx(base, off+i)); it may be
+		// dereferenced, indexed and re-sliced, but not stored or passed on.
+		e.winOf[v] = sl
+		e.vals[v] = "WINDOW-POINTER-ESCAPED"
+
 	case *ssa.Call:
 		e.call(st, v, v.Common(), v)
 	case *ssa.Go:
@@ -521,9 +642,16 @@ func isNilConst(v ssa.Value) bool {
 }
 
 func (e *fnEnc) unop(st *state, v *ssa.UnOp) {
-	x := e.val(v.X)
+	x := ""
+	if _, isWin := e.winOf[v.X]; !isWin {
+		x = e.val(v.X)
+	}
 	switch v.Op {
 	case token.MUL: // load
+		if sl, isWin := e.winOf[v.X]; isWin {
+			e.setVal(v, e.loadWindow(st, sl, v.Type()))
+			return
+		}
 		e.oblige(st, "nil", "", v.Pos(), not(eq(x, "null")))
 		t := v.Type()
 		val := e.loadValue(st, x, t)
@@ -703,6 +831,13 @@ func (e *fnEnc) loadBox(st *state, addr string, t types.Type) (res string) {
 }
 
 func (e *fnEnc) indexAddr(st *state, v *ssa.IndexAddr) {
+	if sl, isWin := e.winOf[v.X]; isWin {
+		i := e.toIndex(v.Index)
+		arr := v.X.Type().Underlying().(*types.Pointer).Elem().Underlying().(*types.Array)
+		e.oblige(st, "bounds", "", v.Pos(), app("bvult", i, bvLit(64, uint64(arr.Len()))))
+		e.setVal(v, idxAddr(app("s_base", sl), bvadd(app("s_off", sl), i)))
+		return
+	}
 	x := e.val(v.X)
 	i := e.toIndex(v.Index)
 	switch u := v.X.Type().Underlying().(type) {
@@ -766,6 +901,20 @@ func byteOfBV(x string, n int, i string) string {
 }
 
 func (e *fnEnc) sliceOp(st *state, v *ssa.Slice) {
+	if sl, isWin := e.winOf[v.X]; isWin {
+		arr := v.X.Type().Underlying().(*types.Pointer).Elem().Underlying().(*types.Array)
+		n := bvLit(64, uint64(arr.Len()))
+		lo, hi := bvLit(64, 0), n
+		if v.Low != nil {
+			lo = e.toIndex(v.Low)
+		}
+		if v.High != nil {
+			hi = e.toIndex(v.High)
+		}
+		e.oblige(st, "slice", "", v.Pos(), and(app("bvule", lo, hi), app("bvule", hi, n)))
+		e.setVal(v, fmt.Sprintf("(mkslice (s_base %s) %s (bvsub %s %s) (bvsub %s %s))", sl, bvadd(app("s_off", sl), lo), hi, lo, n, lo))
+		return
+	}
 	x := e.val(v.X)
 	var lo, hi, max string
 	if v.Low != nil {
@@ -904,4 +1053,34 @@ func clauseMentionsParams(x Expr, fn *ssa.Function) bool {
 		}
 	})
 	return found
+}
+
+// loadWindow reads an array value through a pointer obtained by a slice-to-array conversion.
+func (e *fnEnc) loadWindow(st *state, sl string, t types.Type) string {
+	a, ok := t.Underlying().(*types.Array)
+	if !ok {
+		e.unsupported("load through a window pointer of type %s", t)
+	}
+	s := e.sortOf(t)
+	elem := func(i int64) string {
+		return e.loadValue(st, idxAddr(app("s_base", sl), bvadd(app("s_off", sl), bvLit(64, uint64(i)))), a.Elem())
+	}
+	if n, isBV := isByteArrayBV(t); isBV {
+		if n == 1 {
+			return elem(0)
+		}
+		var bs []string
+		for i := 0; i < n; i++ {
+			bs = append(bs, elem(int64(i)))
+		}
+		return "(concat " + strings.Join(bs, " ") + ")"
+	}
+	if a.Len() > 32 {
+		e.unsupported("load of a large array through a window pointer")
+	}
+	term := fmt.Sprintf("((as const %s) %s)", s.name, e.V.ST.zeroValue(s.elem))
+	for i := int64(0); i < a.Len(); i++ {
+		term = fmt.Sprintf("(store %s %s %s)", term, bvLit(64, uint64(i)), elem(i))
+	}
+	return term
 }
